@@ -72,12 +72,36 @@ def _job_worker(job):
             text = text + '\n/* ---- relational counterpart extracted from build %s (prefix R_) ---- */\n' % job['rel'][0] + text2
             info['trusted'] = sorted(set(info.get('trusted', [])) | set(info2.get('trusted', [])))
             info['libm'] = sorted(set(info.get('libm', [])) | set(info2.get('libm', [])))
+        job['text_template'] = job['text']
+        job['lines_template'] = dict(job['lines'])
         job['text'] = job['text'].replace('@@GEN@@', text)
         # line numbers shift by the generated text
         shift = text.count('\n')
         job['lines'] = {str(int(k) + shift): v for k, v in job['lines'].items()}
         r = run_contract_job(job)
         r['translate'] = info
+        failed = [n for n, st in r.get('clauses', {}).items() if st != 'SUCCESS' and n != '__canary']
+        if job.get('uf_float') and r.get('status') == 'done' and failed:
+            # a failure under the uninterpreted-function abstraction of float * / sqrt is not a verdict: refine (exact arithmetic)
+            job2 = dict(job)
+            job2['uf_float'] = []
+            job2['id'] = job['id'] + '_exact'
+            job2['text'] = job['text_template']
+            job2['lines'] = job['lines_template']
+            text2, info2 = ll2c.translate(b.mod, roots=roots, prefix='', poison_flags=job['poison_flags'], uf_float=())
+            if job.get('rel'):
+                t3, i3 = ll2c.translate(G_BUILDS[job['rel'][0]].mod, roots=list(job['rel'][1]), prefix='R_', poison_flags=job['poison_flags'], uf_float=())
+                text2 = text2 + '\n' + t3
+            job2['text'] = job2['text'].replace('@@GEN@@', text2)
+            shift2 = text2.count('\n')
+            job2['lines'] = {str(int(k) + shift2): v for k, v in job2['lines'].items()}
+            r2 = run_contract_job(job2)
+            r2['translate'] = info2
+            r2['refined_from_uf'] = failed
+            r2['seconds'] += r['seconds']
+            if r2.get('status') != 'done':
+                r2['detail'] = 'abstraction (uninterpreted float ops) failed on %s; exact arithmetic: %s' % (failed, r2.get('detail', ''))
+            return r2
         return r
     except llir.Unsupported as e:
         return {'fn': job['fn'], 'variant': job.get('variant', ''), 'status': 'error', 'detail': 'll2c unsupported: %s' % e,
@@ -85,6 +109,13 @@ def _job_worker(job):
     except Exception as e:
         return {'fn': job['fn'], 'variant': job.get('variant', ''), 'status': 'error', 'detail': 'worker exception: ' + traceback.format_exc()[-1500:],
                 'clauses': {}, 'safety': [], 'inputs': {}, 'seconds': 0, 'solver_s': 0, 'backend': None, 'log': ''}
+
+
+def parse_num(v):
+    try:
+        return int(v, 0)
+    except ValueError:
+        return float.fromhex(v) if 'x' in v.lower() else float(v)
 
 
 def safety_key(desc):
@@ -188,14 +219,19 @@ class Prop:
                 infra.append('%s: %s' % (c.fn, e))
                 continue
             ens = []
-            fnd = {f.obligation.split('.', 1)[1]: f for f in findings if f.obligation.split('.', 1)[0] == c.fn}
+            fnd = {f.obligation.split('.', 1)[1]: f for f in findings if f.obligation.split('.', 1)[0] in (c.fn, '%s[%s]' % (c.fn, c.build))}
             for name, e in c.ensures:
                 if name in fnd:
                     f = fnd[name]
                     ens.append((name + '__orig', e))
-                    ens.append((name + '__outsideS', '(%s) || (%s)' % (f.S, e)))
-                    if f.pinned:
-                        ens.append((name + '__pinned', '!(%s) || (%s)' % (f.S, f.pinned)))
+                    if c.kind == 'R':
+                        ens.append((name + '__outsideS', 'Or(%s, %s)' % (f.S, e)))
+                        if f.pinned:
+                            ens.append((name + '__pinned', 'Or(Not(%s), %s)' % (f.S, f.pinned)))
+                    else:
+                        ens.append((name + '__outsideS', '(%s) || (%s)' % (f.S, e)))
+                        if f.pinned:
+                            ens.append((name + '__pinned', '!(%s) || (%s)' % (f.S, f.pinned)))
                 else:
                     ens.append((name, e))
             ckey = c.fn + '@' + c.build
@@ -206,7 +242,13 @@ class Prop:
                 jobmeta[ckey] = (c, sig, ens, fnd)
                 continue
             rel_sigs = {n: self.builds[c.rel[0]].driver.shims[n].view_sig() for n in c.rel[1]} if getattr(c, 'rel', None) else None
-            text, lines = harness_text(c, sig, '@@GEN@@', ensures_override=ens, rel_sigs=rel_sigs)
+            keep_sigs = {}
+            for u in c.uses:
+                if u in b.driver.shims:
+                    keep_sigs[u] = b.driver.shims[u].view_sig()
+            for n_, s_ in (rel_sigs or {}).items():
+                keep_sigs['R_' + n_] = s_
+            text, lines = harness_text(c, sig, '@@GEN@@', ensures_override=ens, rel_sigs=rel_sigs, keep_sigs=keep_sigs)
             jid = jid0
             uses_ir = []
             for u in c.uses:
@@ -221,7 +263,7 @@ class Prop:
             jobmeta[ckey] = (c, sig, ens, fnd)
             sfnd = {k: f for k, f in fnd.items() if k.startswith('safety:')}
             if sfnd:
-                text2, lines2 = harness_text(c, sig, '@@GEN@@', extra_requires=['!(%s)' % f.S for f in sfnd.values()], ensures_override=ens, rel_sigs=rel_sigs)
+                text2, lines2 = harness_text(c, sig, '@@GEN@@', extra_requires=['!(%s)' % f.S for f in sfnd.values()], ensures_override=ens, rel_sigs=rel_sigs, keep_sigs=keep_sigs)
                 job2 = dict(job)
                 job2.update({'id': jid + '_x', 'text': text2, 'lines': lines2, 'variant': 'outsideS'})
                 jobs.append(job2)
@@ -289,7 +331,7 @@ class Prop:
                     okx = rx is not None and rx['status'] == 'done' and rx['clauses'].get('__canary') == 'FAILURE' and \
                         all(st == 'SUCCESS' for (_, d2, st) in rx['safety'] if safety_key(d2) == key)
                     if okx:
-                        wit = {k: int(v, 0) for k, v in (f.witness or {}).items()}
+                        wit = {k: parse_num(v) for k, v in (f.witness or {}).items()}
                         rp = run_replay(self.builds[c.build], self.builds[c.build].driver.shims[c.fn], c, wit, wd,
                                         re.sub(r'\W', '_', c.fn + '_w_' + key)[:100], sanitize=True)
                         if rp.get('ok') and rp.get('rc', 0) != 0 and 'runtime error' in (rp.get('err') or ''):
@@ -312,7 +354,7 @@ class Prop:
                         ob(name, 'discharged', note='listed finding no longer reproduces (clause proves outright)')
                         continue
                     if sw == 'SUCCESS' and sp == 'SUCCESS':
-                        wit = {k: int(v, 0) for k, v in (f.witness or {}).items()}
+                        wit = {k: parse_num(v) for k, v in (f.witness or {}).items()}
                         rp = self.replay(c, sig, wit, wd, 'w_' + name)
                         if rp.get('ok') and rp['clauses'].get(name) == 'BREACHED':
                             known_lines.append('KNOWN-FINDING: property=%s %s.%s fails for inputs {%s} (witness %s); %s' % (
